@@ -1,15 +1,17 @@
 #!/usr/bin/env python3
 """copy confirmed seeded mutations from /tmp/seed/<ID>/<k>/ into /verif/seeded/<ID>-<k>/ (patch.diff, zz_demo.rs, meta.json)"""
-import os, json, shutil, glob
+import os, json, shutil, glob, sys
+BASE = sys.argv[1] if len(sys.argv) > 1 else "/tmp/seed"
+OFFSET = int(sys.argv[2]) if len(sys.argv) > 2 else 0
 V = os.path.dirname(os.path.dirname(os.path.abspath(__file__)))
 n = 0
-for d in sorted(glob.glob("/tmp/seed/C*/[0-9]")):
+for d in sorted(glob.glob(BASE + "/C*/[0-9]")):
     cf = os.path.join(d, "confirm.json")
     if not os.path.exists(cf): continue
     c = json.load(open(cf))
     if not c.get("confirmed"): continue
     pid, k = d.split("/")[-2:]
-    out = os.path.join(V, "seeded", "%s-%s" % (pid, k)); os.makedirs(out, exist_ok=True)
+    out = os.path.join(V, "seeded", "%s-%d" % (pid, int(k) + OFFSET)); os.makedirs(out, exist_ok=True)
     shutil.copy(os.path.join(d, "patch.diff"), out); shutil.copy(os.path.join(d, "zz_demo.rs"), out)
     m = json.load(open(os.path.join(d, "meta.json")))
     m["confirmed_by_coordinator"] = {"how": "tools/seedcheck.py confirm: fresh scratch worktree of /repo HEAD; demo passes unpatched; patch applies; full suite with patch: %s; demo fails with patch" % json.dumps(c.get("suite_patched")),
